@@ -32,10 +32,11 @@ def nontrivial(b):
 def run(ctx):
     q = ctx.quick
     U.exhaustive(ctx, ["MC_UdpNatC16.cfg", "MC_UdpNatSync.cfg"] if q else ["MC_UdpNatC16T.cfg", "MC_UdpNatSync.cfg", "MC_UdpNatLong.cfg"], "C16")
-    fams = U.real_families(ctx, "c16", 60 if q else 400, 35 if q else 200, U.PROPS["C16"], seed_off=104729, want={"returned"})
+    fams = U.real_families(ctx, "c16", 55 if q else 400, 30 if q else 200, U.PROPS["C16"], seed_off=104729, want={"returned"}, n_focus=8 if q else 40)
     # second pass: the REAL Prometheus collectors (private registry) behind the recorder.  Every behaviour ends with the listener
     # being closed, usually while associations are still live: afterwards nat_entries_removed must equal nat_entries_added.
-    fams2 = U.real_families(ctx, "c16prom", 25 if q else 200, 15 if q else 100, U.PROPS["C16"], seed_off=15485863, prom=True, want={"returned", "prom"})
+    fams2 = U.real_families(ctx, "c16prom", 30 if q else 200, 0 if q else 100, U.PROPS["C16"], seed_off=15485863, prom=True, want={"returned", "prom"},
+                             n_focus=0 if q else 12)
     sts, ncalls, live_at_close = {}, 0, 0
     for fam, behs, trace, sums in fams + fams2:
         ctx.cov["evaluations"] += len(behs)
